@@ -386,3 +386,13 @@ V("C14-m-product-sign-reject", "C14", "C14.7", (OPT, "    if D.ar_numpy.sign(fa)
 V("C14-n-product-sign-update", "C14", "C14.7", (OPT, "        if D.ar_numpy.sign(fa) * D.ar_numpy.sign(fs) < 0:\n            b = s", "        if fa * fs < 0:\n            b = s"))
 V("C14-o-product-sign-vec", "C14", "C14.7", (OPT, "        mask = D.ar_numpy.sign(fa) * D.ar_numpy.sign(fs) < 0\n", "        mask = fa * fs < 0\n"))
 V("C08-t-product-sign-vec", "C08", "C08.6", (OPT, "    bracketed = D.ar_numpy.sign(fa) * D.ar_numpy.sign(fb) < 0\n", "    bracketed = fa * fb < 0\n"))
+V("C16-s-fd-weights-old", "C16", "C16.6", (UTL, "                    A[m].append(A[m][n - 1] + (A[m][n - 1] - A[m - 1][n - 1]) / (factor ** (lead + 2 * (n - 1)) - 1))\n                if m >= 3:", "                    A[m].append(A[m][n - 1] + (A[m][n - 1] - A[m - 1][n - 1]) / ((factor ** self.base_order) ** n - 1))\n                if m >= 3:"))
+V("C16-t-fd-lead-odd", "C16", "C16.6", (UTL, "        lead = self.base_order - self.base_order % 2\n        prev_error", "        lead = self.base_order\n        prev_error"))
+V("C16-u-fd-moment-order", "C16", "C16.6", (UTL, "    b_vector[order] = 1.0", "    b_vector[order - 1] = 1.0"))
+V("C08-u-sentinel-unchecked", "C08", "C08.7", (DS, "                                if not self.__events or last_occurrence[active_events[ev_idx]] == -1:", "                                if not self.__events:"))
+V("C04-s-prehalving-signed", "C04", "C04.6", (DS, "        if D.ar_numpy.abs(self.dt) > D.ar_numpy.abs(tf - self.__t[self.counter]):\n            self.dt = D.ar_numpy.abs(tf - self.__t[self.counter]) * 0.5", "        if self.dt > tf - self.__t[self.counter]:\n            self.dt = (tf - self.__t[self.counter]) * 0.5"))
+V("C04-t-prehalving-always", "C04", "C04.6", (DS, "        if D.ar_numpy.abs(self.dt) > D.ar_numpy.abs(tf - self.__t[self.counter]):\n            self.dt = D.ar_numpy.abs(tf - self.__t[self.counter]) * 0.5", "        if True:\n            self.dt = D.ar_numpy.abs(tf - self.__t[self.counter]) * 0.5"))
+V("C09-u-far-edge-open-backward", "C09", "C09.6", (DS, "                                true_positive = (prev_time + dTime <= root) & (root <= self.__t[self.counter])", "                                true_positive = (prev_time + dTime < root) & (root <= self.__t[self.counter])"))
+V("C07-u-far-edge-open-forward", "C07", "C07.5", (DS, "                                true_positive = (self.__t[self.counter] <= root) & (root <= prev_time + dTime)", "                                true_positive = (self.__t[self.counter] <= root) & (root < prev_time + dTime)"))
+V("C10-w-mask-dropped-on-method-change", "C10", "C10.6", (DS, "        if staggered_mask is None:\n            if hasattr(self.integrator, \"staggered_mask\"):\n                return self.integrator.staggered_mask\n            return self.staggered_mask\n        return staggered_mask", "        if staggered_mask is None and hasattr(self.integrator, \"staggered_mask\"):\n            return self.integrator.staggered_mask\n        return staggered_mask"))
+V("C10-x-mask-nonzero-rows", "C10", "C10.7", (ITY, "            self.staggered_mask = D.ar_numpy.astype(D.ar_numpy.asarray(staggered_mask, like=self.tableau_intermediate), D.autoray.to_backend_dtype('bool', like=self.tableau_intermediate))", "            staggered_mask = D.ar_numpy.nonzero(D.ar_numpy.asarray(staggered_mask, like=self.tableau_intermediate))[0]\n            self.staggered_mask = D.ar_numpy.zeros(sys_dim, dtype=D.autoray.to_backend_dtype('bool', like=self.tableau_intermediate), like=self.tableau_intermediate)\n            self.staggered_mask[staggered_mask] = 1"))
